@@ -273,11 +273,11 @@ def cases(c):
         for cplx in (0, 1):
             for prof in PROFILES:
                 out.append({'p': p, 'cplx': cplx, 'prof': prof, 'r0exp': 0, 'directed': p in (1, 2, 3, 16)})
-    for i in range(1500 if c.tier == 'quick' else 54000):
+    for i in range(1500 if c.tier == 'quick' else 216000):
         out.append({'p': int(rng.integers(1, 17)), 'cplx': int(rng.integers(0, 2)),
                     'prof': gen.pick(rng, PROFILES), 'r0exp': int(gen.pick(rng, [-10, -9, -6, -3, -2, -1, 0, 0, 1, 2, 3, 6])),
                     'i': i})
-    for i in range(40 if c.tier == 'quick' else 3600):
+    for i in range(40 if c.tier == 'quick' else 14400):
         out.append({'p': int(rng.integers(1, 9)), 'cplx': 0, 'prof': 'integer-lags', 'r0exp': 0, 'i': i})
     return out
 
